@@ -50,6 +50,9 @@ pub struct PoolCfg {
     pub env: Vec<(String, String)>,
     /// worker RSS cap in bytes (RLIMIT_AS is too blunt for tokio; we use RLIMIT_DATA)
     pub mem_cap: u64,
+    /// re-run a timed-out case on a fresh worker with a doubled budget before reporting it (off for
+    /// multi-case chunks that are split into single cases anyway)
+    pub confirm_timeouts: bool,
 }
 
 impl PoolCfg {
@@ -60,10 +63,15 @@ impl PoolCfg {
             timeout: Duration::from_secs(10),
             env: vec![],
             mem_cap: 4 << 30,
+            confirm_timeouts: true,
         }
     }
     pub fn timeout_ms(mut self, ms: u64) -> Self {
         self.timeout = Duration::from_millis(ms);
+        self
+    }
+    pub fn no_confirm(mut self) -> Self {
+        self.confirm_timeouts = false;
         self
     }
     pub fn workers(mut self, n: usize) -> Self {
@@ -253,7 +261,7 @@ pub fn run(cfg: &PoolCfg, cases: &[Vec<u8>]) -> Vec<Outcome> {
                                 super::report::truncate(&String::from_utf8_lossy(&cases[i]), 3000)
                             );
                         }
-                        if matches!(o, Outcome::Timeout) {
+                        if matches!(o, Outcome::Timeout) && cfg.confirm_timeouts {
                             // confirm on a fresh worker with a doubled budget: load must not
                             // create alarms
                             let mut w2: Option<Worker> = None;
